@@ -68,13 +68,18 @@ func dataDiff(got, want []tarFile, prefixOK bool) string {
 // standard concrete ReaderAt type instead of the simulated disk.
 var c14TypedDevice bool
 
+// c14LZ: the package of this run has an lzma member, whose decoder reads from a
+// goroutine of its own.
+var c14LZ bool
+
 type loadOutcome struct {
-	d     *deb.Deb
-	err   error
-	files []tarFile
-	ferr  error
-	cerr  error
-	task  *rt.Task
+	ownFile string // "" or what went wrong with the caller's own file handle
+	d       *deb.Deb
+	err     error
+	files   []tarFile
+	ferr    error
+	cerr    error
+	task    *rt.Task
 }
 
 // loadVia loads the image through deb.Load on a simulated disk, or through
@@ -89,8 +94,43 @@ func loadBody(r *rt.Run, via string, img []byte, disk *simdisk.Disk, readData bo
 				dev = typedReaderAt(r, img, disk)
 			}
 			o.d, o.err = deb.Load(dev, "/pkgs/x.deb")
+		case "LoadOwnFile":
+			// the caller opens the file itself and hands the handle to Load: the
+			// handle stays the caller's - usable for another Load after the first
+			// package was closed, and closed by the caller alone
+			fs := simos.New(r)
+			fs.NoYield = c14LZ
+			fs.PutQuiet("/pkgs/x.deb", img)
+			simos.Install(fs)
+			defer simos.Install(nil)
+			f, err := simos.Open("/pkgs/x.deb")
+			if err != nil {
+				o.err = err
+				return
+			}
+			defer func() {
+				if o.err != nil || o.d == nil {
+					f.Close()
+					return
+				}
+				d2, err2 := deb.Load(f, "/pkgs/x.deb")
+				switch {
+				case err2 != nil:
+					o.ownFile = fmt.Sprintf("after the first package was closed, a second Load from the caller's still-open file failed: %v", err2)
+				case d2.Control.Package != o.d.Control.Package:
+					o.ownFile = "the second Load from the same handle gave another package name"
+				}
+				if d2 != nil {
+					d2.Close()
+				}
+				if cerr := f.Close(); cerr != nil && o.ownFile == "" {
+					o.ownFile = fmt.Sprintf("the caller's own Close of its file failed: %v (someone else closed it)", cerr)
+				}
+			}()
+			o.d, o.err = deb.Load(f, "/pkgs/x.deb")
 		case "LoadFile":
 			fs := simos.New(r)
+			fs.NoYield = c14LZ
 			fs.PutQuiet("/pkgs/x.deb", img)
 			simos.Install(fs)
 			defer simos.Install(nil)
@@ -143,8 +183,12 @@ func runC14(r *rt.Run, tier string) {
 	if mode != 2 && t.Bool(1, 6, "c14.via") {
 		via = "LoadFile"
 		r.Probe("via-LoadFile")
+	} else if mode == 0 && t.Bool(1, 8, "c14.via-ownfile") {
+		via = "LoadOwnFile"
+		r.Probe("via-the-callers-own-file-handle")
 	}
 	lz := p.CtlCodec == "lzma" || p.DataCodec == "lzma"
+	c14LZ = lz
 	img := p.Image
 	// the process-wide tuning knob of the xz decoder is a per-run choice: unset,
 	// the default, the corpus' own dictionary size (8 MiB), more, or far too
@@ -373,6 +417,9 @@ func runC14(r *rt.Run, tier string) {
 		if o.cerr != nil {
 			r.Violate("C14/close-error", key, "Close: %v", o.cerr)
 		}
+		if o.ownFile != "" {
+			r.Violate("C14/callers-file-handle", key, "%s", o.ownFile)
+		}
 		// accessors on what was loaded: the source-package name, and the member
 		// index entries seen as tar files
 		wantSrc := p.Ctl.Model.Source
@@ -450,5 +497,5 @@ func init() {
 		},
 		Assumptions: []string{"kjk/lzma decodes in its own goroutine: for packages with an lzma member the disk runs in quiet mode (no trace events, no EIO) so that the trace stays deterministic", "tar and gzip writers of the Go stdlib and the zstd/lzma encoders of the third-party modules are trusted to produce valid payloads"},
 	})
-	propProbes["C14"] = []string{"index-entry-opened-as-tarfile", "xz-dictionary-limit-lowered-then-reset", "xz-member-refused-under-limit", "xz-dictionary-limit-below-need", "earlier-package-closed-twice", "gzip-member-with-several-streams", "fault-on-extra-member", "loads-interleaved", "via-LoadFile", "loaded-repeatedly", "extra-underscore-member"}
+	propProbes["C14"] = []string{"via-the-callers-own-file-handle", "index-entry-opened-as-tarfile", "xz-dictionary-limit-lowered-then-reset", "xz-member-refused-under-limit", "xz-dictionary-limit-below-need", "earlier-package-closed-twice", "gzip-member-with-several-streams", "fault-on-extra-member", "loads-interleaved", "via-LoadFile", "loaded-repeatedly", "extra-underscore-member"}
 }
